@@ -4,6 +4,9 @@
  *   wk <table> <filter> <windows>
  *   match <text> <pattern> <pfx> <sub>       the static match() of coap_resource.c
  *   body <table> <filter>                    size probe + full print exactly as hnd_get_wellknown_lkd does
+ *   get <table> <filter> <szx>               a real block-wise GET /.well-known/core?<filter> (one Uri-Query option) through
+ *                                            coap_dispatch() on a UDP session, Block2 size 2^(szx+4), reassembled;
+ *                                            output <body hex>:<number of responses>  (coap_socket_send is wrapped: nothing is sent)
  *
  *   <table>   `-` or `,`-separated entries  `+<path>:<flags>:<attrs>` (coap_add_resource) / `!<path>` (coap_delete_resource)
  *             flags: 1 observable, 2 COAP_RESOURCE_FLAGS_OSCORE_ONLY,
@@ -19,11 +22,24 @@
 
 static coap_context_t *ctx;
 
+/* ---- capture of what the library would send (linked with -Wl,--wrap=coap_socket_send) ---- */
+static uint8_t cap[4096];
+static size_t cap_len;
+static int cap_n;
+ssize_t __wrap_coap_socket_send(coap_socket_t *sock, coap_session_t *session, const uint8_t *data, size_t len) {
+  (void)sock; (void)session;
+  cap_n++;
+  cap_len = len < sizeof(cap) ? len : sizeof(cap);
+  memcpy(cap, data, cap_len);
+  return (ssize_t)len;
+}
+
 static void h_init(void) {
   coap_startup();
   coap_set_log_level(getenv("H_LOG") ? atoi(getenv("H_LOG")) : COAP_LOG_EMERG);
   ctx = coap_new_context(NULL);
   if (!ctx) { fprintf(stderr, "no context\n"); exit(3); }
+  coap_context_set_block_mode(ctx, COAP_BLOCK_USE_LIBCOAP);
 }
 
 /* a coap_str_const_t whose bytes live inside the same allocation and end exactly at its end */
@@ -206,6 +222,71 @@ out:
   free(qs.s);
 }
 
+static void do_get(char *table, char *filter, int szx) {
+  coap_string_t qs, *q;
+  coap_address_t addr;
+  coap_session_t *session = NULL;
+  static uint8_t body[1 << 16];
+  size_t blen = 0;
+  unsigned num = 0, nresp = 0;
+  int bad = 0;
+  const char *why = "";
+  if (szx < 0 || szx > 6 || !make_filter(filter, &qs, &q)) { printf("bad-op"); return; }
+  if (!build_table(table)) { printf("bad-op"); goto out; }
+  coap_address_init(&addr);
+  addr.size = sizeof(struct sockaddr_in);
+  addr.addr.sin.sin_family = AF_INET;
+  addr.addr.sin.sin_addr.s_addr = htonl(INADDR_LOOPBACK);
+  addr.addr.sin.sin_port = htons(5683);
+  session = coap_new_client_session(ctx, NULL, &addr, COAP_PROTO_UDP);
+  if (!session) { printf("fail-session"); goto out; }
+  for (;;) {
+    coap_pdu_t *req = coap_pdu_init(COAP_MESSAGE_CON, COAP_REQUEST_CODE_GET, (coap_mid_t)(0x1000 + num), 1152);
+    coap_pdu_t *rsp;
+    uint8_t tok[2] = { 0xC2, 0x00 }, b[4];
+    coap_opt_iterator_t oi;
+    coap_opt_t *o;
+    size_t dl = 0; const uint8_t *d = NULL;
+    unsigned more = 0;
+    coap_add_token(req, 2, tok);
+    coap_add_option(req, COAP_OPTION_URI_PATH, 11, (const uint8_t *)".well-known");
+    coap_add_option(req, COAP_OPTION_URI_PATH, 4, (const uint8_t *)"core");
+    if (q && q->length) coap_add_option(req, COAP_OPTION_URI_QUERY, q->length, q->s);
+    coap_add_option(req, COAP_OPTION_BLOCK2, coap_encode_var_safe(b, sizeof(b), (num << 4) | (unsigned)szx), b);
+    cap_n = 0; cap_len = 0;
+    coap_lock_lock(ctx, );
+    coap_dispatch(ctx, session, req);
+    coap_lock_unlock(ctx);
+    coap_delete_pdu(req);
+    if (cap_n != 1) { bad = 1; why = "responses"; break; }
+    nresp++;
+    rsp = coap_pdu_init(0, 0, 0, 2048);
+    if (!coap_pdu_parse(COAP_PROTO_UDP, cap, cap_len, rsp)) { bad = 1; why = "unparsable"; coap_delete_pdu(rsp); break; }
+    if (rsp->code != COAP_RESPONSE_CODE(205)) { bad = 1; why = "code"; coap_delete_pdu(rsp); break; }
+    coap_get_data(rsp, &dl, &d);
+    o = coap_check_option(rsp, COAP_OPTION_BLOCK2, &oi);
+    if (o) {
+      unsigned v = coap_decode_var_bytes(coap_opt_value(o), coap_opt_length(o));
+      more = (v >> 3) & 1;
+      if ((v >> 4) != num || (int)(v & 7) != szx) { bad = 1; why = "block"; }
+      if (more && dl != ((size_t)1 << (szx + 4))) { bad = 1; why = "size"; }
+      if (dl > ((size_t)1 << (szx + 4))) { bad = 1; why = "size"; }
+    } else if (num != 0) { bad = 1; why = "noblock"; }
+    if (blen + dl > sizeof(body)) { bad = 1; why = "long"; }
+    if (!bad && dl) { memcpy(body + blen, d, dl); blen += dl; }
+    coap_delete_pdu(rsp);
+    if (bad || !more) break;
+    num++;
+    if (num > 5000) { bad = 1; why = "endless"; break; }
+  }
+  if (bad) printf("bad-%s", why);
+  else { h_puthex(stdout, body, blen); printf(":%u", nresp); }
+out:
+  if (session) coap_session_release(session);
+  coap_delete_all_resources(ctx);
+  free(qs.s);
+}
+
 static void do_match(const char *t, const char *p, int pfx, int sub) {
   size_t tl, pl;
   uint8_t *tb = h_unhex(t, &tl), *pb = h_unhex(p, &pl), *te, *pe;
@@ -224,6 +305,7 @@ static void step(char *line) {
   int n = h_words(line, w, 8);
   if (n == 4 && !strcmp(w[0], "wk")) { do_wk(w[1], w[2], w[3]); return; }
   if (n == 3 && !strcmp(w[0], "body")) { do_body(w[1], w[2]); return; }
+  if (n == 4 && !strcmp(w[0], "get")) { do_get(w[1], w[2], atoi(w[3])); return; }
   if (n == 5 && !strcmp(w[0], "match")) { do_match(w[1], w[2], atoi(w[3]), atoi(w[4])); return; }
   printf("bad-op");
 }
